@@ -24,7 +24,7 @@ def moments(x, center, scale, ddof):
     mu = sum(xs) / n if center else None
     s2 = None
     if scale:
-        s2 = sum((v - (mu or 0)) ** 2 for v in xs) / (n - ddof)
+        s2 = sum((v - (mu or 0)) ** 2 for v in xs) / (n - F(ddof))    # ddof may be fractional (exact: 0.5, 1.5)
     return mu, s2
 
 
@@ -43,7 +43,7 @@ def mean_exact(vals):
 def sd_exact(vals, ddof, about_mean=True):
     """sqrt(sum((v - m)^2)/(N - ddof)) of float values, m = mean or 0"""
     m = mean_exact(vals) if about_mean else 0
-    return sqrt_fraction(sum((F(v) - m) ** 2 for v in vals) / (len(vals) - ddof))
+    return sqrt_fraction(sum((F(v) - m) ** 2 for v in vals) / (len(vals) - F(ddof)))
 
 
 def kappa(x):
